@@ -166,13 +166,19 @@ def worker_env(variant='mon', root=None, logdir=None):
     force = os.environ.get('VMON_FORCE_VARIANT')
     if force:
         variant = force
+    valgrind = variant == 'vg'
+    if valgrind:
+        # valgrind memcheck runs the ordinary monitor build (gcc -O1 -g)
+        variant = 'mon'
     bdir = get_build(variant, root)
     env = dict(os.environ)
     env['PYTHONPATH'] = bdir + os.pathsep + VERIF
     env['PURE_PYTHON'] = '0'
     env['PYTHONHASHSEED'] = '0'
     env['VMON_BUILD_DIR'] = bdir
-    env['VMON_VARIANT'] = variant
+    env['VMON_VARIANT'] = 'vg' if valgrind else variant
+    if valgrind:
+        env['PYTHONMALLOC'] = 'malloc'
     env['PYTHONFAULTHANDLER'] = '1'
     env.pop('PYTHONSTARTUP', None)
     if variant == 'asan':
